@@ -264,7 +264,7 @@ def check_case(records, res, roundtrip=True):
     n_norm = sum(1 for recs in records.values() for r in recs if r[1])
     small = {ti: recs for ti, recs in records.items()} if sum(len(r) for r in records.values()) <= 12 else {"sizes": {ti: len(r) for ti, r in records.items()}}
     res.case(
-        case_repr={"records(value, normal, success) per task": small} if res.evaluations % 1501 == 7 else None,
+        case_repr={"records(value, normal, success) per task": small} if res.sample_now(1501) else None,
         nontrivial_key=repr(small) if n_norm >= 2 else None,
         outcome_key=(v[0] if v else "ok", n_norm, tuple(sorted(len(r) for r in records.values()))),
     )
